@@ -184,28 +184,28 @@ FLOORS_QUICK = {
   "mirror-checks": 364,
   "per-list-checks": 112,
   "post-list-checks": 120,
-  "restart-version-checks": 5485
+  "restart-version-checks": 5487
  },
  "C04": {
   "continuity-checks": 398,
-  "reconnect-version-checks": 674,
-  "reconnects": 674
+  "reconnect-version-checks": 678,
+  "reconnects": 678
  },
  "C05": {
   "burst-then-stop-cases": 40,
   "controller-path-leaves": 281,
-  "events-received": 366474,
+  "events-received": 366460,
   "leaves": 1771,
   "mid-burst-closes": 533,
   "mid-burst-subscribers": 719,
   "stale-wire-events": 2362
  },
  "C06": {
-  "filtered-node-checks": 20409,
-  "filtered-node-checks-nonempty": 11314,
-  "mid-flow-closes": 709,
-  "mirror-checks": 9415,
-  "refilters": 6429
+  "filtered-node-checks": 20424,
+  "filtered-node-checks-nonempty": 11323,
+  "mid-flow-closes": 710,
+  "mirror-checks": 9421,
+  "refilters": 6430
  },
  "C07": {
   "back-to-back-refilters": 2048,
@@ -231,34 +231,34 @@ FLOORS_QUICK = {
   "join-mirror-checks": 410,
   "late-destination-joins": 9,
   "ready-order-checks": 220,
-  "refilter-points": 3866
+  "refilter-points": 3352
  },
  "C10": {
   "blocked-monitors-checked": 44,
   "cache-current-checks": 586,
   "healthy-streams-checked": 222,
-  "overruns": 12677,
+  "overruns": 12678,
   "slow-streams-checked": 47,
   "stalled-refilter-checks": 19,
   "stalled-streams-checked": 180,
   "stress-typed-cases": 8,
-  "stress-typed-reads": 16170
+  "stress-typed-reads": 15361
  },
  "C11": {
-  "outside-nodes-checked": 633,
-  "subtree-nodes-checked": 634,
-  "survivor-rounds": 78
+  "outside-nodes-checked": 813,
+  "subtree-nodes-checked": 649,
+  "survivor-rounds": 87
  },
  "C12": {
-  "post-done-api-calls": 27080,
+  "post-done-api-calls": 27064,
   "racing-calls": 1488,
-  "set:trigger-points": 17,
+  "set:trigger-points": 18,
   "terminations": 372
  },
  "C13": {
   "count-checks": 72,
-  "gap-checks": 1563,
-  "lists": 1635
+  "gap-checks": 1562,
+  "lists": 1634
  },
  "C14": {
   "failstop-checks": 54,
@@ -267,13 +267,13 @@ FLOORS_QUICK = {
  },
  "C15": {
   "big-histories": 24,
-  "big-snapshots": 51605,
+  "big-snapshots": 56532,
   "histories": 160,
   "linearizable": 160,
-  "reads": 26905
+  "reads": 26969
  },
  "C16": {
-  "callbacks": 2946,
+  "callbacks": 3049,
   "exact-stream-checks": 30,
   "init-content-checks": 63,
   "no-callback-checks": 9
